@@ -805,7 +805,7 @@ func execC17Handler(c C17Case, bound time.Duration) (map[string]bool, error) {
 		finished = true
 		conn.Close()
 		dl := time.Now().Add(bound)
-		for svc.VerifActiveConnections() != 0 && time.Now().Before(dl) {
+		for activeConns(svc) != 0 && time.Now().Before(dl) {
 			time.Sleep(100 * time.Microsecond)
 		}
 		svc.Shutdown()
